@@ -83,7 +83,15 @@ def introspect_remote_schema(
     try:
         response = httpx.post(
             url,
-            json={"query": get_introspection_query(descriptions=False)},
+            json={
+                "query": get_introspection_query(
+                    descriptions=True,
+                    specified_by_url=True,
+                    directive_is_repeatable=True,
+                    schema_description=True,
+                    input_value_deprecation=True,
+                )
+            },
             headers=headers,
             verify=verify_ssl,
         )
